@@ -12,7 +12,7 @@ import (
 // C14 — meaning is independent of layout.
 
 func c14Layouts(thorough bool) []gen.Layout {
-	pads := []string{"", " ", "   ", "\t"}
+	pads := []string{"", " ", "   ", "\t", "GLUE"}
 	nls := []string{"\n", "\r\n", "\r"}
 	blanks := []int{0, 2}
 	anns := []string{"inline", "multi", "multi-broken"}
@@ -34,7 +34,11 @@ func c14Layouts(thorough bool) []gen.Layout {
 							if dev == 0 || (!thorough && dev > 2) {
 								continue
 							}
-							out = append(out, gen.Layout{Pad: p, NL: n, LeadBlank: b, TrailBlank: b, Ann: a, QuoteNames: q, Comments: c, Indent: "\t"})
+							l := gen.Layout{Pad: p, NL: n, LeadBlank: b, TrailBlank: b, Ann: a, QuoteNames: q, Comments: c, Indent: "\t"}
+							if p == "GLUE" {
+								l.Pad, l.Glue = "", true
+							}
+							out = append(out, l)
 						}
 					}
 				}
